@@ -310,6 +310,17 @@ def trow(row):
 # generators
 
 STRS = ["a", "b c", "x@y", "l1\nl2", "back\\slash", "\\s", "é", "", "@", "The dog barks."]
+# characters that str.splitlines() / universal newlines treat as line boundaries but a relation file does
+# not (only "\n" ends a record), plus NUL and an astral character
+LINE_CHARS = ["\r", "\x0b", "\x0c", "\x1c", "\x1d", "\x1e", "\x85", "\u2028", "\u2029", "\x00", "\U0001F600"]
+
+
+def line_variants(c):
+    """the character alone, doubled, at the start/end of a value, next to newline, delimiter, backslash"""
+    return [c, c + c, c + "a", "a" + c, "a" + c + "b", c + "\n", "\n" + c, c + "@", "@" + c, c + "\\", "\\" + c]
+
+
+LINE_STRS = [v for c in LINE_CHARS for v in line_variants(c)]
 
 
 class Gen:
@@ -329,7 +340,17 @@ class Gen:
                 return {"date": [rng.choice([1999, 2004, 2024]), rng.randrange(1, 13), rng.randrange(1, 29), 0, 0, 0]}
             return {"date": [rng.choice([1999, 2004, 2024]), rng.randrange(1, 13), rng.randrange(1, 29),
                              rng.randrange(24), rng.randrange(60), rng.randrange(60)]}
-        return {"str": cps(rng.choice(STRS))}
+        return {"str": cps(self.text())}
+
+    def text(self):
+        """a string value: the ordinary pool, or (random share) one with a line-boundary character"""
+        rng = self.rng
+        r = rng.random()
+        if r < 0.25:
+            return rng.choice(LINE_STRS)
+        if r < 0.30:
+            return rng.choice(STRS) + rng.choice(LINE_CHARS) + rng.choice(["", "x", "\n"])
+        return rng.choice(STRS)
 
     def row(self, name, bad=0.0):
         """a row with a unique first cell, so that lost/duplicated/shifted rows are visible"""
@@ -373,16 +394,16 @@ class Gen:
             nres = rng.choice([0, 1, 1, 2, 3])
             t = {"results": []}
             for r in range(nres):
-                res = {"result-id": {"int": str(r)}, "mrs": {"str": cps(rng.choice(STRS) or "m")}}
+                res = {"result-id": {"int": str(r)}, "mrs": {"str": cps(self.text() or "m")}}
                 if rng.random() < 0.5:
-                    res["derivation"] = {"str": cps("(root %d)" % r)}
+                    res["derivation"] = {"str": cps("(root %d)" % r + rng.choice(["", ""] + LINE_CHARS))}
                 t["results"].append(res)
             if rng.random() < 0.5:
                 t["readings"] = {"int": str(nres)}
             if rng.random() < 0.5:
                 t["total"] = {"int": str(rng.randrange(0, 99))}
             if rng.random() < 0.3:
-                t["error"] = {"str": cps(rng.choice(["timeout", "x@y", "e\nf"]))}
+                t["error"] = {"str": cps(rng.choice(["timeout", "x@y", "e\nf"] + [rng.choice(LINE_STRS)]))}
             if run_ids:
                 rid = run_ids[j % len(run_ids)]
                 t["run"] = {"run-id": {"int": str(rid)}, "platform": {"str": cps("p%d" % j)},
@@ -574,6 +595,39 @@ def process_case(rng):
     return {"kind": "process", "tables": tables, "steps": steps}
 
 
+def linebreak_cases():
+    """deterministic block: every line-boundary character (and NUL, an astral character) in every
+    position variant, in stored / appended / assigned / updated / extended / processor-produced rows,
+    in middle and LAST columns, plain and gzip, followed by commit, reload, reopen and the full query set"""
+    gen = Gen(__import__("random").Random(85))
+    S = lambda x: {"str": cps(x)}
+    I = lambda n: {"int": str(n)}
+    for c in LINE_CHARS:
+        v = line_variants(c)
+        for gz in (False, True):
+            tables = {"note": {"init": [[I(1), S(v[0])], [I(2), S(v[1])]], "gz": gz},
+                      "item": {"init": [[I(1), S(v[2]), None], [I(2), S("plain"), None]], "gz": gz}}
+            script = [{"results": [{"result-id": I(0), "mrs": S(v[10]), "derivation": S(v[9])}],
+                       "error": S(v[8]), "run": {"run-id": I(0), "run-comment": S(v[4]), "platform": S(c),
+                                                 "end": {"date": [2018, 6, 6, 12, 20, 49]}}}]
+            steps = [
+                {"k": "append", "t": "note", "row": [I(3), S(v[3])]},
+                {"k": "setitem", "t": "note", "i": 0, "row": [I(4), S(v[4])]},
+                {"k": "update", "t": "note", "i": -1, "data": [["n-text", S(v[5])]]},
+                {"k": "extend", "t": "item", "rows": [[I(5), S(v[6]), None], [I(6), S(v[7]), None]]},
+                {"k": "commit"},
+                {"k": "reload"},
+                {"k": "setslice", "t": "note", "sl": [1, 2, None], "rows": [[I(7), S(v[8])], [I(8), S(v[9])]]},
+                {"k": "commit"},
+                {"k": "reopen"},
+                {"k": "process", "b": 0, "gz": gz, "script": script},
+                {"k": "commit"},
+                {"k": "reopen"},
+            ]
+            yield {"kind": "linebreak", "tables": tables,
+                   "steps": [with_obs(json.loads(json.dumps(st)), gen, 4) for st in steps]}
+
+
 def negindex_cases():
     """t[i] = row below -len (F31, fixed by d65eea1: must be an IndexError like a list)"""
     gen = Gen(__import__("random").Random(31))
@@ -593,7 +647,10 @@ class C10(Check):
     thorough_cases = 3000
     rule = ("one case = one history over a profile with six relations (item, note, parse, result, run, edge), "
             "0-6 initially stored rows per used relation, plain or gzip; rows carry a unique first cell and "
-            "typed values (int, str incl. @ newline backslash, date, None); ops append/extend/setitem/"
+            "typed values (int, str incl. @ newline backslash and - in a deterministic block of 22 histories per run "
+            "plus ~30% of random strings - each of CR VT FF FS GS RS NEL U+2028 U+2029 NUL and an astral "
+            "character alone/doubled/at start/at end/next to newline, @, backslash, in middle and last columns; "
+            "date, None); ops append/extend/setitem/"
             "setslice(start,stop in -n-2..n+2 or None, step in -8..8 or None)/update/clear/commit/reload/"
             "reopen/process(scripted processor, buffer 0..beyond the produced rows, gzip or not); after every "
             "step len, iteration, every index -n-1..n, 4+ slices, a column selection, in_transaction, the "
@@ -623,6 +680,7 @@ class C10(Check):
     # ---- cases
     def cases(self, rng, tier, n):
         yield from negindex_cases()
+        yield from linebreak_cases()
         if tier == "quick":
             yield from exhaustive_cases(rng, 2)
         else:
